@@ -29,7 +29,7 @@ def run(chk, replay=None):
             chk.absorb(recs, verdicts, rp)
     chk.exhaustive = True
     chk.traces_validated = len(chk.distinct)
-    chk.rule = ('(1) one case per subset of <= %d breaches out of 19 hard + 6 soft rule breaches injected at specific entities of the base file (all subsets, '
+    chk.rule = ('(1) one case per subset of <= %d breaches out of 19 hard + 7 soft rule breaches injected at specific entities of the base file (all subsets, '
                 'incompatible pairs excluded); (2) one case per Validate transition of every history of <= %d in-place steps (inject / repair / reopen / validate, '
                 'same process, same entity ids) - the verdict must depend on the breaches present only; evaluations = entity validations; compared: per entity '
                 '"has an error", and File::validate().hasErrors(), at every validation of the history') % ((4, 5) if chk.thorough else (3, 4))
